@@ -38,6 +38,7 @@ type PoolEnt struct {
 	Pat    string `json:"pat"`
 	Sel    string `json:"sel"`
 	FailAt int    `json:"failAt"`
+	Hide   bool   `json:"hide"` // value of the variable $hide of the subscriber's request
 }
 
 type Universe struct {
@@ -78,11 +79,19 @@ func (u *Universe) sdl() string {
 func (u *Universe) selText(sel string) string {
 	var parts []string
 	for _, kf := range u.SelKeys[sel] {
-		if kf[0] == kf[1] {
-			parts = append(parts, kf[1])
-		} else {
-			parts = append(parts, kf[0]+": "+kf[1])
+		p := kf[1]
+		if kf[0] != kf[1] {
+			p = kf[0] + ": " + kf[1]
 		}
+		if len(kf) > 2 {
+			switch kf[2] {
+			case "skip":
+				p += " @skip(if: $hide)"
+			case "incl":
+				p += " @include(if: $hide)"
+			}
+		}
+		parts = append(parts, p)
 	}
 	return strings.Join(parts, " ")
 }
@@ -275,6 +284,8 @@ func newWorld(u *Universe) *world {
 
 func (w *world) subscribe(s int) map[string]interface{} {
 	sel := w.u.selText(w.u.Pool[s-1].Sel)
+	hide := w.u.Pool[s-1].Hide
+	usesHide := strings.Contains(sel, "$hide")
 	if w.shared {
 		// one parsed request per selection, resolved once per subscriber (a server that prepares its requests):
 		// every subscription still gets its own selection set applied to the events
@@ -282,14 +293,18 @@ func (w *world) subscribe(s int) map[string]interface{} {
 		exe := w.exes[sel]
 		if exe == nil {
 			var err error
-			if exe, err = w.root.ParseExecutableString(fmt.Sprintf("subscription($s: Int) { watch(sub: $s) { %s } }", sel)); err != nil {
+			decl := "$s: Int"
+			if usesHide {
+				decl += ", $hide: Boolean"
+			}
+			if exe, err = w.root.ParseExecutableString(fmt.Sprintf("subscription(%s) { watch(sub: $s) { %s } }", decl, sel)); err != nil {
 				w.mu.Unlock()
 				return map[string]interface{}{"errors": ggql.FormErrorsResult(err)}
 			}
 			w.exes[sel] = exe
 		}
 		w.mu.Unlock()
-		res, err := w.root.ResolveExecutable(exe, "", map[string]interface{}{"s": s})
+		res, err := w.root.ResolveExecutable(exe, "", map[string]interface{}{"s": s, "hide": hide})
 		if res == nil {
 			res = map[string]interface{}{}
 		}
@@ -298,8 +313,14 @@ func (w *world) subscribe(s int) map[string]interface{} {
 		}
 		return res
 	}
-	q := fmt.Sprintf("subscription { watch(sub: %d) { %s } }", s, sel)
-	return w.root.ResolveString(q, "", nil)
+	// the subscriber's variable comes with the request or is defaulted by it
+	switch {
+	case !usesHide:
+		return w.root.ResolveString(fmt.Sprintf("subscription { watch(sub: %d) { %s } }", s, sel), "", nil)
+	case s%2 == 1:
+		return w.root.ResolveString(fmt.Sprintf("subscription($hide: Boolean) { watch(sub: %d) { %s } }", s, sel), "", map[string]interface{}{"hide": hide})
+	}
+	return w.root.ResolveString(fmt.Sprintf("subscription($hide: Boolean = %v) { watch(sub: %d) { %s } }", hide, s, sel), "", nil)
 }
 
 func (w *world) reg() []int {
